@@ -211,27 +211,35 @@ impl Segment {
             let mut buf_seg = cand_seg;
             let mut buf_str = cand_graph.clone();
             for d in DIACRITS.iter() {
-                if self.match_modifiers(&d.prereqs).is_ok() && self.match_modifiers(&d.payload).is_ok() {
-                    let before = buf_seg;
-                    buf_seg.apply_diacritic_payload(&d.payload);
-                    if buf_seg == before {
-                        buf_seg = before;
-                        continue;
-                    }
-                    if buf_seg == cand_seg {
-                        continue;
-                    } else {
+                // Build the spelling the way the word parser will read it: a diacritic's prerequisites are
+                // checked on the segment as it stands after the diacritics before it
+                if self.match_modifiers(&d.payload).is_ok() {
+                    let mut trial = buf_seg;
+                    if trial.check_and_apply_diacritic(d).is_ok() && trial != buf_seg {
+                        buf_seg = trial;
                         buf_str.push(d.diacrit);
                     }
                 }
                 if buf_seg == *self { 
-                    return Some(buf_str);
+                    // The spelling may still collide with a longer base phone (`β` + `̞` is itself one), so read it back
+                    if Self::reads_back(&buf_str, self) {
+                        return Some(buf_str);
+                    }
+                    break;
                 }
             }
         }
 
         // "�".to_string()
         None
+    }
+
+    /// Whether the word parser reads `grapheme` as exactly `seg`
+    fn reads_back(grapheme: &str, seg: &Segment) -> bool {
+        match crate::word::Word::new(grapheme.to_string(), &[]) {
+            Ok(w) => w.syllables.len() == 1 && w.syllables[0].segments.len() == 1 && w.syllables[0].segments[0] == *seg,
+            Err(_) => false,
+        }
     }
 
     pub(crate) fn match_modifiers(&self, mods: &DiaMods) -> Result<(), (usize, bool)> {
